@@ -11,6 +11,7 @@ HmE(n, t) == S!HmE(n, t)  Hm(n, t) == S!Hm(n, t)  If(fl, t) == S!If(fl, t)  IfBi
 BinTree(t) == S!BinTree(t)  HmS(n, t) == S!HmS(n, t)
 Lite(t) == S!Lite(t)  HmAug(n, t, x) == S!HmAug(n, t, x)  HmAugE(n, t, x) == S!HmAugE(n, t, x)  RefAny == S!RefAny
 RefPick(fl, t0, t1) == S!RefPick(fl, t0, t1)  F(name, t) == S!F(name, t)  Alt(cn, tag, fs) == S!Alt(cn, tag, fs)
+UnitT == S!UnitT
 AltC(cn, tag, fs, cons) == S!AltC(cn, tag, fs, cons)  URange(n, lo, hi) == S!URange(n, lo, hi)  Pick(fl, t0, t1) == S!Pick(fl, t0, t1)
 Tag32(a, b, c, d) == S!BytesToBits(<<a, b, c, d>>)
 Tag8(a) == S!BytesToBits(<<a>>)
@@ -239,6 +240,17 @@ TheSchema == [
      Alt("consensus_config_v4", Tag8(217), << F("flags", Zero(7)), F("new_catchain_ids", Bool), F("round_candidates", UPos(8)), F("next_candidate_delay_ms", U(32)),
           F("consensus_timeout_ms", U(32)), F("fast_attempts", U(32)), F("attempt_duration", U(32)), F("catchain_max_deps", U(32)), F("max_block_bytes", U(32)),
           F("max_collated_bytes", U(32)), F("proto_version", U(16)), F("catchain_max_blocks_coeff", U(32)) >>) >>,
+  \* suspended_address_list#00 addresses:(HashmapE 288 Unit) suspended_until:uint32 = SuspendedAddressList;
+  SuspendedAddressList |-> << Alt("suspended_address_list", Tag8(0), << F("addresses", HmE(288, UnitT)), F("suspended_until", U(32)) >>) >>,
+  OracleBridgeParams |-> << Alt("oracle_bridge_params", <<>>, << F("bridge_address", Bits(256)), F("oracle_mutlisig_address", Bits(256)),
+        F("oracles", HmE(256, U(256))), F("external_chain_address", Bits(256)) >>) >>,
+  JettonBridgePrices |-> << Alt("jetton_bridge_prices", <<>>, << F("bridge_burn_fee", Grams), F("bridge_mint_fee", Grams), F("wallet_min_tons_for_storage", Grams),
+        F("wallet_gas_consumption", Grams), F("minter_min_tons_for_storage", Grams), F("discover_gas_consumption", Grams) >>) >>,
+  JettonBridgeParams |-> <<
+     Alt("jetton_bridge_params_v0", Tag8(0), << F("bridge_address", Bits(256)), F("oracles_address", Bits(256)), F("oracles", HmE(256, U(256))),
+          F("state_flags", U(8)), F("burn_bridge_fee", Grams) >>),
+     Alt("jetton_bridge_params_v1", Tag8(1), << F("bridge_address", Bits(256)), F("oracles_address", Bits(256)), F("oracles", HmE(256, U(256))),
+          F("state_flags", U(8)), F("prices", Ref(Named("JettonBridgePrices"))), F("external_chain_address", Bits(256)) >>) >>,
   \* ---- output actions
   \* libref_hash$0 lib_hash:bits256 = LibRef;  libref_ref$1 library:^Cell = LibRef;
   LibRef |-> << Alt("libref_hash", <<0>>, << F("lib_hash", Bits(256)) >>), Alt("libref_ref", <<1>>, << F("library", RefCell) >>) >>,
